@@ -808,9 +808,17 @@ impl DcpsDomainParticipant {
                     .iter()
                     .filter(|x| x.dds_subscription_data.topic_name.value == writer_topic_name)
                 {
+                    // Nothing to do for an endpoint that is matched with exactly this data and is still compatible
+                    // with the (possibly changed) QoS of the local writer
                     if data_writer
                         .matched_subscription_list
                         .contains(&discovered_reader_data.dds_subscription_data)
+                        && get_discovered_reader_incompatible_qos_policy_list(
+                            &data_writer.qos,
+                            &discovered_reader_data.dds_subscription_data,
+                            &publisher.qos,
+                        )
+                        .is_empty()
                     {
                         continue;
                     }
@@ -1209,6 +1217,33 @@ impl DcpsDomainParticipant {
                                         .status_condition
                                         .add_communication_state(StatusKind::PublicationMatched);
                                 } else {
+                                    // A matched reader that is not compatible any more is un-matched
+                                    let subscription_handle = InstanceHandle::new(
+                                        discovered_reader_data.dds_subscription_data.key().value,
+                                    );
+                                    if data_writer
+                                        .matched_subscription_list
+                                        .iter()
+                                        .any(|x| x.key() == discovered_reader_data.dds_subscription_data.key())
+                                    {
+                                        data_writer.remove_matched_subscription(&subscription_handle);
+                                        data_writer.transport_writer.delete_matched_reader(
+                                            discovered_reader_data.reader_proxy.remote_reader_guid,
+                                        );
+                                        if data_writer
+                                            .transport_writer
+                                            .is_change_acknowledged(data_writer.last_change_sequence_number)
+                                        {
+                                            for n in
+                                                data_writer.wait_for_acknowledgments_notification.drain(..)
+                                            {
+                                                n.send(Ok(()));
+                                            }
+                                        }
+                                        data_writer
+                                            .status_condition
+                                            .add_communication_state(StatusKind::PublicationMatched);
+                                    }
                                     let status_changed = data_writer
                                         .incompatible_subscriptions
                                         .add_incompatible_subscription(
@@ -1405,9 +1440,17 @@ impl DcpsDomainParticipant {
                     .iter()
                     .filter(|x| x.dds_publication_data.topic_name() == reader_topic_name)
                 {
+                    // Nothing to do for an endpoint that is matched with exactly this data and is still compatible
+                    // with the (possibly changed) QoS of the local reader
                     if data_reader
                         .matched_publication_list
                         .contains(&discovered_writer_data.dds_publication_data)
+                        && get_discovered_writer_incompatible_qos_policy_list(
+                            data_reader,
+                            &discovered_writer_data.dds_publication_data,
+                            &subscriber_qos,
+                        )
+                        .is_empty()
                     {
                         continue;
                     }
@@ -1778,6 +1821,20 @@ impl DcpsDomainParticipant {
                                         .status_condition
                                         .add_communication_state(StatusKind::SubscriptionMatched);
                                 } else {
+                                    // A matched writer that is not compatible any more is un-matched
+                                    let publication_handle = InstanceHandle::new(
+                                        discovered_writer_data.dds_publication_data.key().value,
+                                    );
+                                    if data_reader
+                                        .matched_publication_list
+                                        .iter()
+                                        .any(|x| x.key() == discovered_writer_data.dds_publication_data.key())
+                                    {
+                                        data_reader.remove_matched_publication(&publication_handle);
+                                        data_reader.transport_reader.delete_matched_writer(
+                                            discovered_writer_data.writer_proxy.remote_writer_guid,
+                                        );
+                                    }
                                     let status_changed = data_reader
                                         .add_requested_incompatible_qos(
                                             InstanceHandle::new(
